@@ -101,9 +101,10 @@ def parseCache (s : String) : List (Nat × Nat) :=
       insert / remove of `k` happened since;
   C11 `insert_answers_waiters`: a caller pending on `k` before `insert k v` is not answered `v`. -/
 def monitor (evs : List (Nat × Fields)) : String :=
+  let evs0 := evs
   let rec go (pinned : List (Nat × Nat)) (running : List (Nat × Nat)) (keyOf : List (Nat × Nat))
       (prevCallers : List (Nat × String)) (prevStarted : List Nat) (prevCache : List (Nat × Nat))
-      (superseded : List Nat) : List (Nat × Fields) → Nat → String
+      (superseded : List Nat) (fetchers : List Nat) : List (Nat × Fields) → Nat → String
     | [], _ => "HOLDS"
     | (ln, f) :: rest, n =>
       let cache := parseCache (getD f "cache" "-")
@@ -147,7 +148,42 @@ def monitor (evs : List (Nat × Fields)) : String :=
         ev = "origin" && getD f "r" "" = "err" &&
           (let kk := keyOfFetch c
            ((cache.find? (·.1 = kk)).map (·.2)) ≠ ((prevCache.find? (·.1 = kk)).map (·.2)))
+      -- C17: every value in this domain is produced for exactly one key (origin results, disk hits and inserts
+      -- carry fresh values); a caller or a cache slot of another key must never show it
+      let valKey : List (Nat × Nat) := (evs0.filterMap fun (_, g) =>
+        let gev := getD g "ev" ""
+        let gk := getNatD g "k" 0
+        let gc := getNatD g "c" 0
+        let kOfC := ((keyOf'.find? (·.1 = gc)).map (·.2))
+        if gev = "insert" || gev = "pinsert" then some (getNatD g "v" 0, gk)
+        else if gev = "origin" || gev = "disk" then
+          (match tuple (getD g "r" ""), kOfC with
+           | [_, v], some kk => v.toNat?.map fun v => (v, kk)
+           | _, _ => none)
+        else none)
+      let valueOf (st : String) : Option Nat :=
+        match st.splitOn ":" with
+        | [t, v] => if t = "val" || t = "hit" then v.toNat? else none
+        | _ => none
+      let foreignCaller : Option (Nat × Nat) := callers.findSome? fun (cid, st) =>
+        match valueOf st, (keyOf'.find? (·.1 = cid)).map (·.2) with
+        | some v, some kk =>
+          (match (valKey.find? (·.1 = v)).map (·.2) with
+           | some vk => if vk ≠ kk then some (cid, v) else none
+           | none => none)
+        | _, _ => none
+      let foreignCache : Option (Nat × Nat) := cache.findSome? fun (kk, v) =>
+        match (valKey.find? (·.1 = v)).map (·.2) with
+        | some vk => if vk ≠ kk then some (kk, v) else none
+        | none => none
+      -- C06: a caller that brought a fetch closure is answered with a value or an error, never with "nothing"
+      let fetchers' := if (ev = "call" || ev = "callabort") && getD f "fetch" "0" = "1" then c :: fetchers else fetchers
+      let starved : Option Nat := (callers.find? fun (cid, st) => st = "none" && fetchers'.contains cid).map (·.1)
       let hang := (getD f "final" "0" = "1" || ev = "abort" || ev = "callabort") && callers.any fun (_, st) => st = "p"
+      match foreignCaller, foreignCache with
+      | some (cid, v), _ => s!"FAILS prop=C17 clause=foreign_value_to_caller line={ln} step={n} detail=caller_{cid}_received_value_{v}_which_was_produced_for_another_key"
+      | _, some (kk, v) => s!"FAILS prop=C17 clause=foreign_value_cached line={ln} step={n} detail=key_{kk}_caches_value_{v}_which_was_produced_for_another_key"
+      | none, none =>
       match clash, overwritten, unanswered, hang with
       | some x, _, _, _ => s!"FAILS prop=C06 clause=one_fetch_at_a_time line={ln} step={n} detail=fetch_{x}_started_while_another_fetch_of_its_key_is_running"
       | _, some (pk, pv), _, _ => s!"FAILS prop=C11 clause=insert_not_overwritten line={ln} step={n} detail=key_{pk}_inserted_v{pv}_but_cache_shows_another_value"
@@ -156,7 +192,8 @@ def monitor (evs : List (Nat × Fields)) : String :=
       | none, none, none, false =>
         if failedCached then s!"FAILS prop=C06 clause=failed_fetch_caches_nothing line={ln} step={n} detail=-"
         else if lateWrite then s!"FAILS prop=C11 clause=late_result_after_disk_only_insert line={ln} step={n} detail=the_lookup_or_fetch_{c}_was_closed_by_a_disk-only_insert_of_its_key_but_its_late_result_changed_the_cache"
-        else go pinned' running' keyOf' callers started cache superseded' rest (n + 1)
-  go [] [] [] [] [] [] [] evs 0
+        else if starved.isSome then s!"FAILS prop=C06 clause=fetch_caller_answered_nothing line={ln} step={n} detail=caller_{starved.getD 0}_brought_a_fetch_closure_and_was_answered_with_no_entry_and_no_error"
+        else go pinned' running' keyOf' callers started cache superseded' fetchers' rest (n + 1)
+  go [] [] [] [] [] [] [] [] evs 0
 
 end Driver.Infl
